@@ -546,9 +546,147 @@ def _flatten(chk, rel, fn0, cls):
                 if blk is not None and len(blk) > 1:
                     del blk[k]
         _relink(fn, parent(fn0))
+    _expand_keyword_dict(fn)
+    _relink(fn, parent(fn0))
+    _hoist_walrus(fn)
+    _relink(fn, parent(fn0))
     _propagate_flags(fn)
     _relink(fn, parent(fn0))
     return fn
+
+
+def _expand_keyword_dict(fn):
+    """`d = {'a': x, ..}` / `if T: d['b'] = y` / `f(.., **d)`: the keyword arguments of the call written out, per branch of the one
+    `if` that adds entries (the statements from that `if` to the call are moved to the end of both of its branches: same order of
+    execution on every path).  Conditions, all checked: the local is bound once, by a dict display with literal string keys; every
+    other occurrence is a store `d['k'] = v` with a literal key, unconditional in the block of the call or directly in a branch of one
+    `if` of that block (both between the display and the call), or the `**d` of that one call; the values are lambdas or literals
+    (moving their evaluation to the call does not change them).  Anything else: the function is left as it is."""
+    def literal(v):
+        return isinstance(v, (ast.Lambda, ast.Constant)) or \
+            (isinstance(v, (ast.List, ast.Tuple)) and all(isinstance(e_, ast.Constant) for e_ in v.elts))
+    for call in [c for c in ast.walk(fn) if isinstance(c, ast.Call)]:
+        stars = [k for k in call.keywords if k.arg is None]
+        if len(stars) != 1 or not isinstance(stars[0].value, ast.Name) or any(isinstance(a, ast.Starred) for a in call.args):
+            continue
+        d = stars[0].value.id
+        st = _stmt_of(call)
+        blk, k = _block_of(st)
+        if blk is None or not isinstance(st, (ast.Expr, ast.Assign)) or d in _params(fn):
+            continue
+        occ = [n for n in ast.walk(fn) if isinstance(n, ast.Name) and n.id == d]
+        disp = [j for j, s_ in enumerate(blk[:k]) if isinstance(s_, ast.Assign) and len(s_.targets) == 1 and
+                isinstance(s_.targets[0], ast.Name) and s_.targets[0].id == d]
+        if len(disp) != 1:
+            continue
+        j = disp[0]
+        dv = blk[j].value
+        if not (isinstance(dv, ast.Dict) and all(isinstance(k_, ast.Constant) and isinstance(k_.value, str) for k_ in dv.keys)
+                and all(literal(v_) for v_ in dv.values)):
+            continue
+
+        def store(s_):
+            if isinstance(s_, ast.Assign) and len(s_.targets) == 1 and isinstance(s_.targets[0], ast.Subscript) and \
+                    isinstance(s_.targets[0].value, ast.Name) and s_.targets[0].value.id == d and \
+                    isinstance(s_.targets[0].slice, ast.Constant) and isinstance(s_.targets[0].slice.value, str) and literal(s_.value) \
+                    and not any(isinstance(n, ast.Name) and n.id == d for n in ast.walk(s_.value)):
+                return s_.targets[0].slice.value, s_.value
+            return None
+        accounted = {id(blk[j].targets[0]), id(stars[0].value)}
+        base = dict(zip([k_.value for k_ in dv.keys], dv.values))
+        branch_if, ok = None, True
+        plain = []                      # (index, key, value) of the unconditional stores
+        for i in range(j + 1, k):
+            s_ = blk[i]
+            if store(s_):
+                accounted.add(id(s_.targets[0].value))
+                plain.append((i,) + store(s_))
+            elif isinstance(s_, ast.If) and any(isinstance(n, ast.Name) and n.id == d for n in ast.walk(s_)):
+                if branch_if is not None or any(isinstance(n, ast.Name) and n.id == d for n in ast.walk(s_.test)):
+                    ok = False
+                    break
+                branch_if = i
+                for b_ in s_.body + s_.orelse:
+                    if store(b_):
+                        accounted.add(id(b_.targets[0].value))
+        if not ok or {id(n) for n in occ} != accounted:
+            continue
+
+        def keywords(upto, extra):
+            kw = dict(base)
+            for i, key, v_ in plain:
+                if i < upto:
+                    kw[key] = v_
+            for b_ in extra:
+                if store(b_):
+                    kw[store(b_)[0]] = store(b_)[1]
+            for i, key, v_ in plain:
+                if i >= upto:
+                    kw[key] = v_
+            return kw
+
+        def written(c_, kw):
+            named = {x.arg for x in c_.keywords if x.arg}
+            if named & set(kw):
+                return False            # a keyword given twice: TypeError at run time; not rewritten
+            c_.keywords = [x for x in c_.keywords if x.arg is not None] + [ast.keyword(arg=a_, value=_clone(v_)) for a_, v_ in kw.items()]
+            return True
+        if set(x.arg for x in call.keywords if x.arg) & (set(base) | {key for _, key, _ in plain}):
+            continue
+        if branch_if is None:
+            if not written(call, keywords(k, [])):
+                continue
+            drop = {id(blk[j])} | {id(blk[i]) for i, _, _ in plain}
+            blk[:] = [s_ for s_ in blk if id(s_) not in drop]
+        else:
+            iff = blk[branch_if]
+            tail = [t_ for t_ in blk[branch_if + 1:k + 1] if not store(t_)]
+            if any(isinstance(n, (ast.FunctionDef, ast.ClassDef)) for t_ in tail for n in ast.walk(t_)):
+                continue
+            pos = [n for n in ast.walk(st)].index(call)
+            new_branches = []
+            for br_ in (iff.body, iff.orelse):
+                cp = _clone(tail)
+                c2 = [n for n in ast.walk(cp[-1])][pos]
+                if not isinstance(c2, ast.Call) or not written(c2, keywords(branch_if, br_)):
+                    new_branches = None
+                    break
+                new_branches.append([b_ for b_ in br_ if not store(b_)] + cp)
+            if new_branches is None:
+                continue
+            iff.body, iff.orelse = new_branches
+            drop = {id(blk[j])} | {id(blk[i]) for i, _, _ in plain} | {id(t_) for t_ in tail}
+            blk[:] = [s_ for s_ in blk if id(s_) not in drop]
+        ast.fix_missing_locations(fn)
+        _relink(fn, parent(fn))
+        return _expand_keyword_dict(fn)
+
+
+def _hoist_walrus(fn):
+    """`if (x := E) <op> c:` is `x = E` followed by `if x <op> c:` (the left operand of a comparison is evaluated first and
+    unconditionally; for an `elif` the assignment lands at the top of the else block, which is where the test is evaluated).  Only
+    this form; any other assignment expression stays where it is."""
+    for _ in range(20):
+        hit = None
+        for st in ast.walk(fn):
+            if isinstance(st, ast.If) and isinstance(st.test, ast.Compare) and isinstance(st.test.left, ast.NamedExpr) and \
+                    isinstance(st.test.left.target, ast.Name):
+                hit = st
+                break
+        if hit is None:
+            return
+        _relink(fn, parent(fn))
+        blk, k = _block_of(hit)
+        if blk is None:
+            return
+        ne = hit.test.left
+        asg = ast.Assign(targets=[ast.Name(id=ne.target.id, ctx=ast.Store())], value=ne.value)
+        hit.test.left = ast.Name(id=ne.target.id, ctx=ast.Load())
+        for x in ast.walk(asg):
+            ast.copy_location(x, hit)
+        ast.copy_location(hit.test.left, hit)
+        blk[k:k] = [asg]
+        ast.fix_missing_locations(fn)
 
 
 def _propagate_flags(fn):
